@@ -2,6 +2,7 @@ package prop
 
 import (
 	"bytes"
+	"crypto/sha256"
 	"encoding/json"
 	"fmt"
 	"math"
@@ -265,6 +266,18 @@ func (w *mtWorkload) Next(block int) []rig.Tx {
 				data = []byte(mttypes.DoNotModify)
 			}
 			out = append(out, r.Mk(a, &mtTag{Op: "edit"}, &mttypes.MsgEditMT{Id: ids[rng.Intn(len(ids))], DenomId: cid, Data: data, Sender: a.Addr.String()}))
+			if rng.Intn(5) == 0 {
+				// the class owner addresses a token that does not exist yet under the id the generator hands out next (ids are
+				// sha256("mt-<sequence>"), anybody can compute them): edit it, then mint to it. Whatever the chain makes of
+				// that, the id the next new token receives must be fresh.
+				seq := r.K.MT.GetMTSequence(r.Ctx()) + uint64(rng.Intn(3))
+				future := fmt.Sprintf("%x", sha256.Sum256([]byte(fmt.Sprintf("mt-%d", seq))))
+				if own := w.find(c.Owner); own != nil && c.Toks[future] == nil {
+					w.run.Count("future-token-id-addressed-before-it-is-generated", 1)
+					out = append(out, r.Mk(own, &mtTag{Op: "edit-future-id"}, &mttypes.MsgEditMT{Id: future, DenomId: cid, Data: []byte("squat"), Sender: own.Addr.String()}),
+						r.Mk(own, &mtTag{Op: "mint-future-id"}, &mttypes.MsgMintMT{Id: future, DenomId: cid, Amount: 3, Sender: own.Addr.String(), Recipient: own.Addr.String()}))
+				}
+			}
 		case 3, 4:
 			cid := classes[rng.Intn(len(classes))]
 			c := w.model[cid]
